@@ -188,6 +188,23 @@ func init() {
 				n := 2*(4<<20+65536) - 100
 				emit(rtCase{Space: "codec", P: Params{"BWT", "NONE", 4<<20 + 65536, 2, 0, int64(n), false, false}, Shape: "text", Len: n, DecJobs: dj})
 			}
+			// framing with blocks above the 256 KiB floor of the task buffers: hints that are far too small
+			// (a file that grew), exact, too large
+			for _, j := range []uint{1, 2, 64} {
+				for _, ck := range []uint{0, 32} {
+					for _, n := range []int{300 << 10, 600 << 10, 1100 << 10} {
+						for _, hint := range []int64{1000, 300 << 10, int64(n), 10 << 20} {
+							kind := "less"
+							if hint == int64(n) {
+								kind = "exact"
+							} else if hint > int64(n) {
+								kind = "more"
+							}
+							emit(rtCase{Space: "framing", HintKind: kind, P: Params{"NONE", "NONE", 512 << 10, j, ck, hint, false, false}, Shape: "text", Len: n, DecJobs: 2})
+						}
+					}
+				}
+			}
 			// incompressible blocks above the 256 KiB floor of the task buffers: entropy coders that EXPAND
 			// the block (table headers, escape overhead) by more than the 1/8 the encoder allows for
 			for _, e := range allEntropies {
